@@ -25,10 +25,14 @@ def run(chk):
         ir.close()
     algs_ok = set()
     for c, r in zip(dc, dres):
-        if not (isinstance(r, list) and len(r) == 3):
+        if not (isinstance(r, list) and len(r) == 4):
             chk.violation("harness: %r" % (r,), c, "checksums:digest")
             continue
-        want, got, via = r
+        want, got, via, again = r
+        if again is not None and again[0] != again[1]:
+            chk.violation("compute_checksum(%d bytes, %s) after the file was replaced in place by other content of the same length "
+                          "and timestamps = %r, hashlib one-shot digest of the new content = %r" % (c["size"], c["alg"], again[1], again[0]),
+                          c, "checksums:digest")
         if want != got:
             chk.violation("compute_checksum(%d bytes, %s) = %r, hashlib one-shot digest = %r" % (c["size"], c["alg"], got, want), c, "checksums:digest")
         elif want[0] == "ok":
